@@ -168,10 +168,11 @@ type Interceptor struct {
 	queue chan packet
 
 	// shutdown
-	closed  chan struct{}
-	wg      sync.WaitGroup
-	id      string
-	onClose func(string)
+	closed    chan struct{}
+	closeOnce sync.Once
+	wg        sync.WaitGroup
+	id        string
+	onClose   func(string)
 }
 
 // burst calculates the minimal burst size required to reach the given rate and
@@ -224,8 +225,10 @@ func (i *Interceptor) BindLocalStream(
 // Close implements interceptor.Interceptor.
 func (i *Interceptor) Close() error {
 	defer i.wg.Wait()
-	close(i.closed)
-	i.onClose(i.id)
+	i.closeOnce.Do(func() {
+		close(i.closed)
+		i.onClose(i.id)
+	})
 
 	return nil
 }
